@@ -93,7 +93,10 @@ def linRun (H : Bytes → Bytes) : PState → Bytes → Nat → List (List (Byte
 
 /-- the end-to-end statement for linear histories, on the byte-level model that the driver runs: after any number of
 blocks (pruning triggered by the store itself), every key of the tip state and of every state within `ph` below the
-tip reads the value of its most recent write — or the hash function has a collision.  NOT proved; what is proved is
+tip reads the value of its most recent write — or the hash function has a collision.  NOT proved, and as written
+only a marker of the aim: the disjunct is the unlocated `∃ x ≠ y, H x = H y`, which every 32-byte-valued function
+satisfies by counting, so the intended statement has the collision located among the node encodings hashed by the
+run (`C03.CollisionIn H (C01.tracesOf H <nodes saved by the run>)`, as in `C01.load_save_or_collision`).  What is proved is
 the composition `retained_state_survives_pruning_partial` below plus its ingredients, and the byte-level model is
 tied to the code by the differential run (digest of the whole database after every pruning run). -/
 def PruneSafeFull : Prop :=
@@ -134,5 +137,21 @@ example : ∃ (T : Node) (vs : List HashData) (U : Node → Prop),
   · intro ℓ h; simp [leafNode, cmpB] at h; subst h; exact ⟨⟨3, [9]⟩, by decide, rfl⟩
   · intro v hv; simp at hv; subst hv; exact ⟨[2], ⟨some [9], true⟩, rfl, rfl⟩
   · intro x y h hx hy _ _; rw [hx, hy]
+
+/-- **split_groups_keep_more** — `pruningFirstLevelNode` flushes its per-key groups whenever 999 keys / 10000 entries
+have accumulated, so the deletion rule may see the eligible versions of one key in several contiguous pieces
+(newest first).  Whatever piece `g` of the eligible list `E` it is applied to, it deletes only versions that the rule
+deletes on the whole list `E` (for which `prune_deletes_only_dead` holds): splitting keeps more, never less.
+NOT proved: that the groups `pruneFirst` builds from `scanDesc` (byte order of `%010d` heights) ARE contiguous
+pieces, newest first, of `eligible cur ph (idx K)` — the byte-level link is tied by the differential run. -/
+theorem split_groups_keep_more (E g pre post : List HashData) (hd : Desc E) (he : E = pre ++ g ++ post)
+    (v : HashData) (hv : v ∈ delRule g) : v ∈ delRule E :=
+  delRule_piece E g pre post hd he v hv
+
+/-- non-vacuity: the middle piece of four versions. -/
+example : Desc [⟨9, [4]⟩, ⟨7, [3]⟩, ⟨4, [2]⟩, ⟨1, [1]⟩] ∧
+    [⟨9, [4]⟩, ⟨7, [3]⟩, ⟨4, [2]⟩, ⟨1, [1]⟩] = [(⟨9, [4]⟩ : HashData)] ++ [⟨7, [3]⟩, ⟨4, [2]⟩] ++ [⟨1, [1]⟩] ∧
+    delRule [(⟨7, [3]⟩ : HashData), ⟨4, [2]⟩] = [⟨4, [2]⟩] := by
+  refine ⟨by simp [Desc], rfl, by decide⟩
 
 end C05
